@@ -180,7 +180,11 @@ def parse_data_types_and_routes_from_doc_ref(
                     else:
                         type_name, __ = val.split('.', 1)
                         namespace = supplied_namespace
-                    doc_type = namespace.data_type_by_name[type_name]
+                    if type_name in namespace.alias_by_name:
+                        # An alias of a struct or union: the walk follows it
+                        doc_type = namespace.alias_by_name[type_name]
+                    else:
+                        doc_type = namespace.data_type_by_name[type_name]
                     data_types.add(doc_type)
                 else:
                     pass  # no action required, because we must be referencing the same object
